@@ -22,6 +22,11 @@ func TestCheck(t *testing.T) {
 	if appsys.Part(t, env, run, "C01") {
 		return
 	}
+	// API part (api_test.go): alerts enter as POST /api/v2/alerts bodies through the real handler; direct oracle only.
+	// true = the replay file held a case of that engine and has been handled.
+	if apiPart(t, env, run) {
+		return
+	}
 	// second part: ONE case per scenario for the instance model (routing + grouping + all group machines on one
 	// clock); a published alert is a single event and the model decides which groups receive it
 	runI := vh.NewRun(env, "AM.Run.InstRun")
